@@ -1,6 +1,9 @@
 package h
 
 import (
+	"time"
+	"sync"
+	"runtime"
 	"bytes"
 	"encoding/binary"
 	"errors"
@@ -127,6 +130,90 @@ func WithAcceptTag(name string) connect.ClientOption {
 	tag := TagByte(name)
 	return connect.WithAcceptCompression(name,
 		func() connect.Decompressor { return &tagDecompressor{tag: tag} },
+		func() connect.Compressor { return &tagCompressor{tag: tag} })
+}
+
+// Tracked tag compression: as WithTag / WithAcceptTag, but every pooled
+// decompressor records being handed to a call (Reset) while another call still
+// holds it (no Close since its last Reset): the symptom of an object that was
+// returned to its pool twice. Reads yield the processor to widen the overlap.
+type Tracker struct {
+	mu       sync.Mutex
+	Problems []string
+	Resets   atomic.Int64
+}
+
+func (t *Tracker) problem(s string) {
+	t.mu.Lock()
+	if len(t.Problems) < 8 {
+		t.Problems = append(t.Problems, s)
+	}
+	t.mu.Unlock()
+}
+
+func (t *Tracker) Snapshot() []string {
+	t.mu.Lock()
+	defer t.mu.Unlock()
+	return append([]string(nil), t.Problems...)
+}
+
+type trackedDecompressor struct {
+	inner connect.Decompressor
+	tr    *Tracker
+	mu sync.Mutex
+	// the pool's protocol (compression.go): Get, Reset(source) ... Close, Reset(empty), Put
+	state int // 0 fresh or parked in the pool, 1 acquired, 2 closed (about to be parked)
+}
+
+func (d *trackedDecompressor) Reset(r io.Reader) error {
+	d.tr.Resets.Add(1)
+	d.mu.Lock()
+	switch d.state {
+	case 0:
+		d.state = 1
+	case 2:
+		d.state = 0 // the parking Reset of putDecompressor
+	default:
+		d.tr.problem("a pooled decompressor was handed to a call while another call still held it")
+	}
+	d.mu.Unlock()
+	return d.inner.Reset(r)
+}
+
+func (d *trackedDecompressor) Read(p []byte) (int, error) {
+	runtime.Gosched()
+	time.Sleep(20 * time.Microsecond)
+	return d.inner.Read(p)
+}
+
+func (d *trackedDecompressor) Close() error {
+	d.mu.Lock()
+	if d.state != 1 {
+		d.tr.problem("a pooled decompressor was released twice for one acquisition (it is now in the pool twice)")
+	}
+	d.state = 2
+	d.mu.Unlock()
+	return nil
+}
+
+func WithTrackedTag(name string, tr *Tracker) connect.HandlerOption {
+	tag := TagByte(name)
+	return connect.WithCompression(name,
+		func() connect.Decompressor { return &trackedDecompressor{inner: &tagDecompressor{tag: tag}, tr: tr} },
+		func() connect.Compressor { return &tagCompressor{tag: tag} })
+}
+
+// WithTrackedRLE registers the run-length "bomb" algorithm with tracked decompressors.
+func WithTrackedRLE(tr *Tracker) connect.HandlerOption {
+	return connect.WithCompression("rle",
+		func() connect.Decompressor { return &trackedDecompressor{inner: &rleDecompressor{}, tr: tr} },
+		func() connect.Compressor { return &rleCompressor{} })
+}
+
+func WithAcceptTrackedTag(name string, tr *Tracker) connect.ClientOption {
+	tag := TagByte(name)
+	return connect.WithAcceptCompression(name,
+		func() connect.Decompressor { return &trackedDecompressor{inner: &tagDecompressor{tag: tag}, tr: tr} },
 		func() connect.Compressor { return &tagCompressor{tag: tag} })
 }
 
@@ -259,6 +346,17 @@ type ChunkBody struct {
 	Closed atomic.Int32
 	Reads  int
 	ended  bool
+	// net/http makes a response's trailers visible when the body read reaches
+	// io.EOF, not before, and never if the body fails
+	resp           *http.Response
+	pendingTrailer http.Header
+}
+
+func (b *ChunkBody) deliverTrailers(err error) {
+	if err == io.EOF && b.resp != nil && b.pendingTrailer != nil {
+		b.resp.Trailer = b.pendingTrailer
+		b.pendingTrailer = nil
+	}
 }
 
 func NewChunkBody(chunks [][]byte, fin FinKind) *ChunkBody {
@@ -286,6 +384,7 @@ func (b *ChunkBody) Read(p []byte) (int, error) {
 	}
 	if len(b.Chunks) == 0 || b.ended {
 		b.ended = true
+		b.deliverTrailers(b.endErr())
 		return 0, b.endErr()
 	}
 	if len(p) == 0 {
@@ -296,6 +395,7 @@ func (b *ChunkBody) Read(p []byte) (int, error) {
 		b.Chunks = b.Chunks[1:]
 		if len(b.Chunks) == 0 && b.Fin == FinEOFWithData {
 			b.ended = true
+			b.deliverTrailers(io.EOF)
 			return n, io.EOF
 		}
 	} else {
@@ -381,9 +481,15 @@ func NewResponse(status int, hdr http.Header, body io.ReadCloser, trailer http.H
 	if trailer == nil {
 		trailer = http.Header{}
 	}
-	return &http.Response{
+	res := &http.Response{
 		Status: fmt.Sprintf("%d %s", status, http.StatusText(status)), StatusCode: status,
 		Proto: "HTTP/2.0", ProtoMajor: 2, ProtoMinor: 0,
 		Header: hdr, Body: body, Trailer: trailer, ContentLength: -1,
 	}
+	if cb, ok := body.(*ChunkBody); ok {
+		// as net/http does: the trailers appear when the body read reaches io.EOF
+		cb.resp, cb.pendingTrailer = res, trailer
+		res.Trailer = http.Header{}
+	}
+	return res
 }
